@@ -8,7 +8,7 @@ use revm_database::{
     states::{CacheAccount, bundle_state::BundleRetention, plain_account::PlainStorage},
 };
 use revm_primitives::{Address, B256, U256};
-use revm_state::{Account, AccountInfo, Bytecode, EvmState};
+use revm_state::{Account, AccountInfo, Bytecode, EvmState, TransactionId};
 use std::{
     fmt::Formatter,
     time::{Duration, Instant},
@@ -513,23 +513,6 @@ impl<'a, DB: DatabaseRef> ParallelStateView<'a, DB> {
         }
     }
 
-    fn increment_balance_transitions(
-        self,
-        balances: impl IntoIterator<Item = (Address, u128)>,
-    ) -> Result<Vec<(Address, TransitionAccount)>, DB::Error> {
-        let mut transitions = Vec::new();
-        for (address, balance) in balances {
-            if balance == 0 {
-                continue;
-            }
-            let mut account = self.load_mut_cache_account(address)?;
-            let transition =
-                account.increment_balance(balance).expect("balance was checked as non-zero");
-            transitions.push((address, transition));
-        }
-        Ok(transitions)
-    }
-
     fn db_basic(self, address: Address) -> Result<Option<AccountInfo>, DB::Error> {
         if let Some(account) = self.cache.accounts.get(&address) {
             return Ok(account.account.clone());
@@ -751,39 +734,69 @@ impl<DB: DatabaseRef> ParallelState<DB> {
     ///
     /// Update will create transitions for all accounts that are updated.
     ///
-    /// Like [CacheAccount::increment_balance], this assumes that incremented balances are not
-    /// zero, and will not overflow once incremented. If using this to implement withdrawals, zero
-    /// balances must be filtered out before calling this function.
+    /// Follows `DatabaseCommitExt::increment_balances`, which revm's `State` uses: every listed
+    /// account is read first and then committed as a touched account, so an account that is empty
+    /// after the update (a zero amount for an empty account) is cleared like after any other touch,
+    /// and balances saturate instead of overflowing.
     pub fn increment_balances(
         &mut self,
         balances: impl IntoIterator<Item = (Address, u128)>,
     ) -> Result<(), DB::Error> {
-        let transitions = self.shared_view().increment_balance_transitions(balances)?;
-        self.apply_transition(transitions);
+        let accounts = balances
+            .into_iter()
+            .map(|(address, balance)| {
+                let mut account = self.touched_account(address)?;
+                account.info.balance = account.info.balance.saturating_add(U256::from(balance));
+                Ok((address, account))
+            })
+            .collect::<Result<Vec<_>, DB::Error>>()?;
+        self.commit_touched_accounts(accounts);
         Ok(())
     }
 
     /// Drain balances from given account and return those values.
     ///
     /// It is used for DAO hardfork state change to move values from given accounts.
+    ///
+    /// Follows `DatabaseCommitExt::drain_balances`: a drained account is committed as a touched
+    /// account, so one that is left empty is cleared exactly as revm's `State` clears it.
     pub fn drain_balances(
         &mut self,
         addresses: impl IntoIterator<Item = Address>,
     ) -> Result<Vec<u128>, DB::Error> {
-        // make transition and update cache state
-        let mut transitions = Vec::new();
         let mut balances = Vec::new();
-        for address in addresses {
-            let mut original_account = self.load_mut_cache_account(address)?;
-            let (balance, transition) = original_account.drain_balance();
-            balances.push(balance);
-            transitions.push((address, transition))
-        }
-        // append transition
-        if let Some(s) = self.transition_state.as_mut() {
-            s.add_transitions(transitions)
-        }
+        let accounts = addresses
+            .into_iter()
+            .map(|address| {
+                let mut account = self.touched_account(address)?;
+                let balance = core::mem::take(&mut account.info.balance);
+                balances.push(balance.try_into().unwrap());
+                Ok((address, account))
+            })
+            .collect::<Result<Vec<_>, DB::Error>>()?;
+        self.commit_touched_accounts(accounts);
         Ok(balances)
+    }
+
+    /// The current account as the journal would hand it to `commit` after touching it.
+    fn touched_account(&self, address: Address) -> Result<Account, DB::Error> {
+        let mut account = match self.basic_ref(address)? {
+            Some(info) => Account::from(info),
+            None => Account::new_not_existing(TransactionId::ZERO),
+        };
+        account.mark_touch();
+        Ok(account)
+    }
+
+    /// Commit the accounts one after the other, like `commit_iter`.
+    fn commit_touched_accounts(&mut self, accounts: Vec<(Address, Account)>) {
+        let transitions = accounts
+            .into_iter()
+            .filter_map(|(address, account)| {
+                self.cache.apply_account_state(address, account).map(|t| (address, t))
+            })
+            .collect();
+        self.apply_transition(transitions);
     }
 
     /// Insert non-existent account
